@@ -189,6 +189,13 @@ def changesOfJson (j : Json) : Except String (List (Nat × Val × Val)) := do
     let af ← valOfJson (x[2]?.getD Json.null)
     pure (r, b, af))
 
+/-- Rebuild every column's cell function from its values at existing rows (keeps look-ups O(rows)
+    instead of O(number of writes so far)); cells outside `rows` read as the type default, which is
+    what the engine's `unset` guarantees. -/
+def compact (d : Doc) : Doc :=
+  d.map (fun tb => { tb with cols := tb.cols.map (fun col =>
+    { col with cells := assocFun (tb.rows.zip (tb.rows.map col.cells)) (typeDefault col.info.type) }) })
+
 structure DState where
   sessions : List (String × Doc) := []
 
@@ -282,8 +289,13 @@ def handle (ds : DState) (j : Json) : DState × Except String Json :=
           ("direct", Json.arr (st.direct.map Json.bool).toArray),
           ("notes", Json.arr (notes.map Json.str).toArray),
           ("calc_before_mismatch", toJson calcMis)]
-        (ds.setDoc sid st.doc, .ok out)
-    | "obs" => (ds, .ok (docToJson (ds.doc sid)))
+        (ds.setDoc sid (compact st.doc), .ok out)
+    | "obs" =>
+      let d := ds.doc sid
+      match j.getObjValAs? (Array String) "tables" with
+      | .ok ts => (ds, .ok (Json.mkObj [("partial", docToJson (d.filter (fun tb => ts.contains tb.id))),
+                                        ("all_tables", toJson (d.map (·.id)))]))
+      | .error _ => (ds, .ok (docToJson d))
     | "apply" =>
       -- replica: apply a list of doc actions (stored of a bundle) with the data semantics only
       match j.getObjVal? "actions" >>= (·.getArr?) with
@@ -294,7 +306,7 @@ def handle (ds : DState) (j : Json) : DState × Except String Json :=
         | .ok as =>
           match applyAll (ds.doc sid) as with
           | .error e => (ds, .ok (Json.mkObj [("error", .str e)]))
-          | .ok d => (ds.setDoc sid d, .ok (Json.mkObj [("ok", .bool true)]))
+          | .ok d => (ds.setDoc sid (compact d), .ok (Json.mkObj [("ok", .bool true)]))
     | o => (ds, .error s!"unknown engine op {o}")
 
 end Grist.Driver.Engine
